@@ -6,6 +6,7 @@ from . import xmlmodel as X
 from .xmlmodel import Node, Attr, Text, Noise, AND, OR, NOT, IMPL, IFF, SEQ
 from .hb import ParseHarness, Family, FAMILIES, concrete_tree, OPTS, POOL
 from .gate import mk_options
+from .native import tree_from_debug
 from .outreader import read_output, render_reflects_tree, Malformed, local_name
 
 def render(m, root, opt):
@@ -111,3 +112,181 @@ class Rewrites(ParseHarness):
         n1 = replay.ask({'op': 'render', 'docs': c['docs'], 'options': list(self.options)})
         n2 = replay.ask({'op': 'render', 'docs': c['rewritten'], 'options': list(self.options)})
         return n1.get('outputs') != n2.get('outputs') or not n1.get('outputs'), {'docs': c['docs'], 'rewritten': c['rewritten'], 'out1': n1.get('outputs'), 'out2': n2.get('outputs'), 'steps': [n1.get('steps'), n2.get('steps')]}
+
+# ---------------------------------------------------------------------------------------------- C09
+def appears_before(slots, n1, n2):
+    """n1's first appearance precedes n2's first appearance in the stream-ordered slot list [(cond, name)]"""
+    alts = []
+    for i, (c, nm) in enumerate(slots):
+        alts.append(AND(c, SEQ(nm, n1), *[NOT(AND(cj, SEQ(nj, n2))) for cj, nj in slots[:i + 1]]))
+    return OR(*alts)
+
+def classify_fields(st, opts):
+    """split a struct's fields into (attrs, text, children) by their serde binding; returns None if the groups are not contiguous in that order"""
+    pre = opts['attribute_prefix']; groups = []
+    for f in st['fields']:
+        b = f['rename'] if f['rename'] is not None else f['ident']
+        if not isinstance(b, str): return None
+        if f['rename'] is not None and b == opts['text_identifier'] and f['type'] == {'option': True, 'vec': False, 'base': 'String'}: groups.append(('t', None, f))
+        elif pre and b.startswith(pre) and f['type']['base'] == 'String' and not f['type']['vec'] and f['rename'] is not None: groups.append(('a', b[len(pre):], f))
+        else: groups.append(('c', b, f))
+    return groups
+
+def preorder(structs):
+    """struct names in the order a pre-order walk over the output's own field order would define them"""
+    by = {}
+    for s in structs: by.setdefault(s['name'], []).append(s)
+    seq = []; used = set()
+    def walk(st):
+        seq.append(st['name']); used.add(id(st))
+        for f in st['fields']:
+            b = f['type']['base']
+            if b == 'String': continue
+            c = [x for x in by.get(b, []) if id(x) not in used]
+            if c: walk(c[0])
+    if structs: walk(structs[0])
+    return seq
+
+class FieldOrder(ParseHarness):
+    """C09: Unsorted = attributes, text, children, each in order of first appearance; structs in pre-order; XmlName = sorted by XML name; nothing else changes"""
+    name = 'field-order'
+    char_ops_forbidden = False
+    preset = 'quick_xml_de'
+    def run(self, m):
+        root, _ = self.parse_all(m, self.scripts())
+        if root is None: return {'root': None}
+        return {'root': root, 'unsorted': render(m, root, {'preset': self.preset}), 'sorted': render(m, root, {'preset': self.preset, 'sort': 'XmlName'})}
+    def assertions(self, m, out):
+        if out['root'] is None: return [('parse succeeds', False)]
+        opts = OPTS[self.preset]; conds = []
+        try:
+            su = read_output(out['unsorted']); ss = read_output(out['sorted'])
+        except Malformed as e:
+            return [('output fits the sub-grammar (%s)' % e, False)]
+        # --- unsorted: group order + first-appearance order, per struct, following the documents
+        byu = {}
+        for s in su: byu.setdefault(s['name'], []).append(s)
+        seen = set()
+        def walk(st, exp, path):
+            seen.add(id(st))
+            g = classify_fields(st, opts)
+            if g is None: conds.append((path + ': bindings concrete', False)); return
+            kinds = ''.join(k for k, _, _ in g)
+            conds.append((path + ': attributes, then text, then children', kinds == 'a' * kinds.count('a') + 't' * kinds.count('t') + 'c' * kinds.count('c') and kinds.count('t') <= 1))
+            an = [n for k, n, _ in g if k == 'a']; cn = [(n, f) for k, n, f in g if k == 'c']
+            aslots = [(c, a.name) for c, a in exp.all_attr_slots()]
+            for x, y in zip(an, an[1:]): conds.append(('%s: attribute %s first appears before %s' % (path, x, y), appears_before(aslots, x, y)))
+            cslots = [(c, k.name) for c, k in exp.all_child_slots()]
+            for (x, _), (y, _) in zip(cn, cn[1:]): conds.append(('%s: child %s first appears before %s' % (path, x, y), appears_before(cslots, x, y)))
+            for n, f in cn:
+                if f['type']['base'] != 'String':
+                    c = [x for x in byu.get(f['type']['base'], []) if id(x) not in seen]
+                    if c: walk(c[0], exp.sub(n), path + n + '/')
+        walk(su[0], X.Expect(self.roots()), '/')
+        conds.append(('unsorted: struct definitions follow a pre-order walk in field order', preorder(su) == [s['name'] for s in su]))
+        # --- sorted
+        for st in ss:
+            g = classify_fields(st, opts)
+            if g is None: conds.append(('sorted: bindings concrete', False)); continue
+            kinds = ''.join(k for k, _, _ in g)
+            conds.append(('sorted %s: attributes, then text, then children' % st['name'], kinds == 'a' * kinds.count('a') + 't' * kinds.count('t') + 'c' * kinds.count('c')))
+            an = [n.encode() for k, n, _ in g if k == 'a']; cn = [n.encode() for k, n, _ in g if k == 'c']
+            conds.append(('sorted %s: attributes ordered by XML name' % st['name'], an == sorted(an)))
+            conds.append(('sorted %s: children ordered by XML name' % st['name'], cn == sorted(cn)))
+        conds.append(('sorted: struct definitions follow a pre-order walk in field order', preorder(ss) == [s['name'] for s in ss]))
+        # --- switching the option changes nothing but the orders
+        def key(structs): return sorted((s['name'], repr(s['derive']), sorted(json.dumps([f['ident'], repr(f['rename']), f['type']], sort_keys=True) for f in s['fields'])) for s in structs)
+        conds.append(('same structs and same fields per struct under both sort options', key(su) == key(ss)))
+        return conds
+    def witnesses(self, m, out):
+        w = {}
+        if out['root'] is None: return w
+        def walk(e):
+            if len(e.f['attributes'].l) >= 2: w['a struct with >= 2 attributes'] = True
+            if len(e.f['children'].l) >= 2: w['a struct with >= 2 children'] = True
+            for k in e.f['children'].l: walk(k.p[0])
+        walk(out['root'])
+        return w
+    def result_summary(self, m, out, model):
+        return {'ok': out['root'] is not None, 'unsorted': X.mval(model, out['unsorted']) if out['root'] is not None else None}
+    def validate_sample(self, s, replay):
+        c = self.concretise(s['assignment'])
+        nat = replay.ask({'op': 'render', 'docs': c['docs'], 'options': [{'preset': self.preset}]})
+        if not nat.get('outputs') or nat['outputs'][0] != s['result']['unsorted']: return False, 'output differs on %r' % (c['docs'],)
+        return True, None
+    def native_violation(self, a, replay):
+        am = AssignmentModel(self.consts(), a)
+        docs = [X.serialise(am, d) for d in self.docs]
+        nat = replay.ask({'op': 'render', 'docs': docs, 'options': [{'preset': self.preset}, {'preset': self.preset, 'sort': 'XmlName'}]})
+        if not nat.get('outputs') or len(nat['outputs']) != 2: return True, {'docs': docs, 'native': nat}
+        out = {'root': True, 'unsorted': nat['outputs'][0], 'sorted': nat['outputs'][1]}
+        failed = [l for l, f in self.assertions(None, out) if not am.truth(f)]
+        return bool(failed), {'docs': docs, 'failed': failed[:5], 'unsorted': nat['outputs'][0]}
+    def role_of(self, v, conc, detail): return 'field order'
+
+# ---------------------------------------------------------------------------------------------- C10
+class OptionsExact(ParseHarness):
+    """C10: derive reproduced verbatim iff non-empty; prefix / text identifier only change serde bindings; rename iff binding != identifier;
+    two arbitrary option values (same sort) yield the same structs, identifiers, types and order"""
+    name = 'options'
+    char_ops_forbidden = False
+    def build(self):
+        ParseHarness.build(self)
+        self.o = []
+        for t in ('o1_', 'o2_'):
+            self.o.append({'derive': z3.String(t + 'derive'), 'attribute_prefix': z3.String(t + 'prefix'), 'text_identifier': z3.String(t + 'textid')})
+        self.sorted = z3.Bool('o_sorted')
+    def consts(self): return ParseHarness.consts(self) + [v for o in self.o for v in o.values()] + [self.sorted]
+    def mk(self, m, o, srt):
+        return RStruct('Options', {'text_identifier': RStr(Frags([o['text_identifier']])), 'attribute_prefix': RStr(Frags([o['attribute_prefix']])),
+                                   'derive': RStr(Frags([o['derive']])), 'sort': REnum('SortBy', 'XmlName' if srt else 'Unsorted', [])})
+    def run(self, m):
+        root, _ = self.parse_all(m, self.scripts())
+        if root is None: return {'root': None}
+        srt = m.branch(self.sorted)
+        outs = [m.call_fn(m.impls['Element']['to_serde_struct'], [self.mk(m, o, srt)], self_val=root).val for o in self.o]
+        # presets as special cases of the same run
+        pres = [m.call_fn(m.impls['Element']['to_serde_struct'], [m.call_fn(m.impls['Options'][p], [])], self_val=root).val for p in ('quick_xml_de', 'serde_xml_rs')] if not srt else []
+        return {'root': root, 'outs': outs, 'presets': pres, 'sorted': srt, 'ctree': concrete_tree(m, root)}
+    def opt_dict(self, o, srt): return dict(o, sort='XmlName' if srt else 'Unsorted')
+    def assertions(self, m, out):
+        if out['root'] is None: return [('parse succeeds', False)]
+        conds = []; shapes = []
+        runs = [(self.opt_dict(o, out['sorted']), t) for o, t in zip(self.o, out['outs'])]
+        if out.get('presets'):
+            runs += [(OPTS['quick_xml_de'], out['presets'][0]), (OPTS['serde_xml_rs'], out['presets'][1])]
+        for od, text in runs:
+            try: structs = read_output(text)
+            except Malformed as e:
+                conds.append(('output fits the sub-grammar (%s)' % e, False)); continue
+            for s in structs:
+                has = s['derive'] is not None
+                conds.append(('derive attribute emitted iff the derive string is non-empty', IFF(has, NOT(SEQ(od['derive'], '')))))
+                if has: conds.append(('derive string reproduced verbatim', SEQ(s['derive'], od['derive'])))
+            conds += render_reflects_tree(structs, out['ctree'], od)
+            shapes.append([(s['name'], [(f['ident'], json.dumps(f['type'], sort_keys=True)) for f in s['fields']]) for s in structs])
+        for sh in shapes[1:]:
+            conds.append(('structs, field identifiers, types and order independent of derive / prefix / text identifier / preset', sh == shapes[0]))
+        return conds
+    def witnesses(self, m, out):
+        if out['root'] is None: return {}
+        return {'an attribute is rendered': any(t['attributes'] for t in [out['ctree']] + [c for _, c in out['ctree']['children']]), 'text rendered': out['ctree']['text'] is not None or any(c['text'] is not None for _, c in out['ctree']['children'])}
+    def concretise(self, a):
+        d = ParseHarness.concretise(self, a)
+        d['options'] = [{'derive': a['o%d_derive' % i], 'attribute_prefix': a['o%d_prefix' % i], 'text_identifier': a['o%d_textid' % i], 'sort': 'XmlName' if a['o_sorted'] else 'Unsorted'} for i in (1, 2)]
+        return d
+    def result_summary(self, m, out, model):
+        return {'ok': out['root'] is not None, 'outs': [X.mval(model, t) for t in out['outs']] if out['root'] is not None else None}
+    def validate_sample(self, s, replay):
+        c = self.concretise(s['assignment'])
+        nat = replay.ask({'op': 'render', 'docs': c['docs'], 'options': c['options']})
+        if nat.get('outputs') != s['result']['outs']: return False, 'outputs differ on %r' % (c,)
+        return True, None
+    def native_violation(self, a, replay):
+        c = self.concretise(a)
+        nat = replay.ask({'op': 'render', 'docs': c['docs'], 'options': c['options'] + ([{'preset': 'quick_xml_de'}, {'preset': 'serde_xml_rs'}] if not a['o_sorted'] else [])})
+        if not nat.get('outputs'): return True, {'input': c, 'native': nat}
+        am = AssignmentModel(self.consts(), a)
+        out = {'root': True, 'outs': nat['outputs'][:2], 'presets': nat['outputs'][2:], 'sorted': a['o_sorted'], 'ctree': tree_from_debug(nat['trees'][-1])}
+        failed = [l for l, f in self.assertions(None, out) if not am.truth(f)]
+        return bool(failed), {'input': c, 'failed': failed[:5], 'outputs': nat['outputs'][:2]}
